@@ -283,6 +283,14 @@ impl UpdatePage {
 
             let mut arr = [0u8; UPDATE_ENTRY_SIZE];
             arr.copy_from_slice(entry_slice);
+
+            // The guard protects bytes 4..23 of the entry as stored: an entry whose
+            // guard does not match is torn or corrupted. It ends the valid part of
+            // the page; it must not be handed on as if it were good.
+            if UpdateEntry::compute_hash_guard(&arr) != hash_guard {
+                break;
+            }
+
             entries.push(UpdateEntry::from_bytes(&arr));
             offset += UPDATE_ENTRY_SIZE;
         }
